@@ -15,8 +15,14 @@ long count_writes(World& W)
 bool sink_accepts(World& W, int sk, Stmt const& s, std::string const& msg)
 {
   SinkInfo const& S = W.sinks[sk];
-  if (s.level < S.level_filter) return false;
-  for (uint32_t salt : S.filter_salts) if (!FnFilter::verdict(salt, s.level, msg)) return false;
+  int lf = S.level_filter;
+  for (auto const& h : S.level_hist) if (s.issue_idx > h.first) lf = h.second;
+  if (s.level < lf) return false;
+  for (size_t k = 0; k < S.filter_salts.size(); ++k)
+  {
+    if (k < S.filter_from.size() && s.issue_idx <= S.filter_from[k]) continue; // attached after this statement was written
+    if (!FnFilter::verdict(S.filter_salts[k], s.level, msg)) return false;
+  }
   return true;
 }
 
@@ -50,7 +56,14 @@ void oracle_delivery(World& W)
   // victims of injected write failures: (sink where it threw, worker, seq)
   std::set<std::tuple<int, int, uint32_t>> threw_on;
   std::map<std::pair<int, uint32_t>, size_t> index;
-  for (size_t k = 0; k < W.stmts.size(); ++k) if (W.stmts[k].accepted || W.stmts[k].call_done) index[{W.stmts[k].w, W.stmts[k].seq}] = k;
+  for (size_t k = 0; k < W.stmts.size(); ++k)
+  {
+    Stmt const& s = W.stmts[k];
+    if (!(s.accepted || s.call_done)) continue;
+    // a macro statement that was filtered by the logger level never got a sequence number (C16): not addressable
+    if ((s.kind == SKind::MacroStatic || s.kind == SKind::MacroDynamic) && !s.evaluated) continue;
+    index[{s.w, s.seq}] = k;
+  }
   for (auto const& e : W.journal)
   {
     if (e.kind != 'X') continue;
